@@ -12,13 +12,15 @@ CFG = dict(
                '"Never fails" is observed on the real call under catch_unwind; the theorem excludes its only cause (a comparator that is not a total preorder).',
     technique='Coq proof (key argument over translator-regenerated tables; sorted-permutation-slice refinement; proved validator) + per-run differential correspondence',
     bin='c35', n_quick=400, n_thorough=6000,
-    corr_name='Model/WireSort.v + Gen/WireRank.v vs compare_wire_values / sort_rows / apply_pagination / Handler::query_program',
+    corr_name='Model/WireSort.v + Gen/WireRank.v vs compare_wire_values / sort_rows / apply_pagination / Handler::query_program / query_program_with_session (fast and slow path) / execute_program',
     rule='corpus (NaN witnesses of the repaired defect, the int/float precision witness); all 1156 ordered pairs of 34 representative Option<WireValue> '
          '(every kind, None, NaN both signs, +-0.0, +-inf, 2^53, 2^53+1, i64 extremes) and 4n triples through the real comparator; n random row sets '
          '(0-110 rows, 1-3 columns, ragged rows, column profiles: int64 / int32+int64 / floats with NaN / int64+floats / int64+floats+NaN / all kinds / strings / '
          'big ints next to floats) with 0-3 keys (also out-of-range columns), random directions, limit/offset in {none, 0, inside, beyond} through the real '
-         'sort_rows+total+apply_pagination; n/8 stored relations queried through Handler::query_program with :asc/:desc annotations and limit(n, off) against '
-         'the un-annotated answer. non-trivial = >=1 key, >=3 rows, non-empty result (sort/query); every comparator pair; a triple when a transitivity premise holds; distinct by text',
+         'sort_rows+total+apply_pagination; a score-table corpus (top-k, windows) plus n/5 random stored relations queried with :asc/:desc annotations and limit(n, off) on EVERY handler '
+         'query path: Handler::query_program, a clean session (fast path), and dirty sessions (slow path of query_program_with_session: part of the tuples as ephemeral session facts, '
+         'an ephemeral fact in another relation, an ephemeral session rule, both), entered through query_program_with_session or execute_program(Some(&sid), ..), each judged against '
+         'the un-annotated answer obtained on the same path. non-trivial = >=1 key, >=3 rows, non-empty result (sort/query); every comparator pair; a triple when a transitivity premise holds; distinct by text',
     trusted_base=['tools/translate.py wirerank generator (Gen/WireRank.v): rank table and arm classification, cross-checked by evaluating the real comparator on every pair of kinds',
                   'hook verif_sort_paginate / verif_compare_wire_values (cfg inputlayer_verif) = sort_rows; rows.len(); apply_pagination exactly as query_program applies them',
                   'slice::sort_by is modelled as a stable sort (insertion sort); for a total preorder every stable sort returns the same list'],
